@@ -1,8 +1,8 @@
 /-!
 # Model of `pkg/object/httpserver/mux.go` — matching and the cache-less search (C01, C05, C12 share it)
 
-Mirrors `muxRule.match`, `MuxPath.matchPath / matchMethod / matchHeaders`, `allowIP` and
-`muxInstance.search` **without** the route cache (the cached search is layered on top in
+Mirrors `muxRule.match`, `MuxPath.matchPath / matchMethod / matchHeaders / rewrite`, `allowIP`,
+`appendXForwardedFor`, `muxInstance.search` and the prefix of `muxInstance.serveHTTP` **without** the route cache (the cached search is layered on top in
 `Model/MuxCache.lean`). Everything external is an oracle whose answers the harness computes with
 the Go standard library / the real filter objects and ships as data:
 
@@ -143,5 +143,67 @@ def searchRules (o : Oracle) (q : Req) : Nat → List Rule → Bool → Bool →
 def search (o : Oracle) (c : Cfg) (q : Req) : Route :=
   if !allowIP o c.ipFilter q.ip then .code 403
   else searchRules o q 0 c.rules false false
+
+/-! ## `MuxPath.rewrite`, `appendXForwardedFor` and the prefix of `muxInstance.serveHTTP` (C01, C05)
+
+Added by the C01/C05 engineer; nothing above is changed. The regexp replacement is one more oracle,
+kept out of `Oracle` so that existing constructions of it stay valid:
+`σ i path target` = `pathRE_i.ReplaceAllString(path, target)`. -/
+
+/-- `MuxPath.rewrite` applied to the request path. `none` stands for the nil dereference of
+`mp.pathRE` in the last statement of the Go function (unreachable after a successful
+`matchPath` of a spec accepted by `Path.Validate`: `Props/C01.lean`, `rewrite_total`).
+`path[len(prefix):]` is a byte slice in Go; for valid UTF-8 strings with `prefix` a prefix of
+`path` it equals dropping `prefix.length` characters. -/
+def rewrite (σ : Nat → String → String → String) (e : PathEntry) (path : String) : Option String :=
+  if e.rewriteTarget == "" then some path
+  else if e.path != "" && e.path == path then some e.rewriteTarget
+  else if e.pathPrefix != "" && e.pathPrefix.isPrefixOf path then
+    some (e.rewriteTarget ++ String.ofList (path.toList.drop e.pathPrefix.length))
+  else match e.pathRE with
+    | some i => some (σ i path e.rewriteTarget)
+    | none => none
+
+/-- `strings.Contains(s, p)` on character lists. -/
+def isInfix (p : List Char) : List Char → Bool
+  | [] => p.isEmpty
+  | c :: t => p.isPrefixOf (c :: t) || isInfix p t
+
+/-- `appendXForwardedFor`: the value `Header.Get("X-Forwarded-For")` returns afterwards, given the
+value `v` it returned before (never an explicitly empty first value) and `ip = RealIP()`. -/
+def xffAfter (v ip : String) : String :=
+  if v == "" then ip
+  else if isInfix ip.toList v.toList then v
+  else v ++ "," ++ ip
+
+/-- What the client / the backend observes for one request. -/
+inductive Outcome where
+  /-- failure response built by the mux (`buildFailureResponse`); no handler was invoked -/
+  | status (c : Nat)
+  /-- handler `backend` was invoked and saw this path / `Host` / `X-Forwarded-For` -/
+  | handled (backend path host xff : String)
+  /-- nil dereference in `rewrite` -/
+  | panic
+deriving Repr, DecidableEq
+
+def xffKey : String := "X-Forwarded-For"
+
+/-- `serveHTTP` from the result of `search` up to the handler invocation: route code → status,
+`GetHandler` miss → 503, then `rewrite`, then `appendXForwardedFor` when `spec.XForwardedFor`.
+Requests carry no body (`FetchPayload` is C07). `backends` = names `GetHandler` knows. -/
+def serveRoute (σ : Nat → String → String → String) (xffOn : Bool) (backends : List String)
+    (q : Req) : Route → Outcome
+  | .code n => .status n
+  | .path _ _ e =>
+    if !backends.contains e.backend then .status 503
+    else match rewrite σ e q.path with
+      | none => .panic
+      | some p => .handled e.backend p q.host
+          (if xffOn then xffAfter (q.get xffKey) q.ip else q.get xffKey)
+
+/-- `muxInstance.serveHTTP` with `cache == nil`. -/
+def serve (o : Oracle) (σ : Nat → String → String → String) (c : Cfg) (xffOn : Bool)
+    (backends : List String) (q : Req) : Outcome :=
+  serveRoute σ xffOn backends q (search o c q)
 
 end EgVerif.Mux
